@@ -21,6 +21,8 @@ type replay struct {
 	Cell string      `json:"cell"`
 	Spec pktgen.Spec `json:"spec"`
 	What string      `json:"what"`
+	// Graph: a command-graph value of the graph pass (graphs_test.go) instead of a generator spec
+	Graph *graphCase `json:"graph,omitempty"`
 }
 
 type H struct {
@@ -249,6 +251,10 @@ func TestVerif(t *testing.T) {
 			if !ok {
 				t.Fatalf("replay: unknown cell %s", rp.Cell)
 			}
+			if rp.Graph != nil {
+				h.runGraph(c, rp.Graph)
+				return
+			}
 			g := pktgen.NewGen(c)
 			h.runCase(g, g.CaseFor(rp.Spec))
 			return
@@ -298,6 +304,7 @@ func TestVerif(t *testing.T) {
 				return true
 			})
 		}
+		h.graphPass()
 		r.Extra("deviation_depth", fmt.Sprint(depth))
 	})
 }
